@@ -8,7 +8,7 @@ from checks import exec_common, exec_findings, c02_real
 def run(ctx):
     tlc.stage(ctx.work)
     c02_real.run(ctx)
-    exec_common.run_property(ctx, "C02", ['crash', 'crash_shutdown', 'init', 'respawn_crash'], 300, 3000, classify=exec_findings.classify)
+    exec_common.run_property(ctx, "C02", ['crash', 'crash_shutdown', 'init', 'respawn_crash', 'resize_grow_crash'], 300, 3000, classify=exec_findings.classify)
 
 
 if __name__ == "__main__":
